@@ -430,33 +430,34 @@ def run(ctx: Context):
         ln = FlowNorm(ls)
         MINUS1 = norm_src("-1")
         lst_nodes = lcfg.find(stores("self.last_complete_prefix_index"))
-        if len(lst_nodes) < 2:
+        lleaves = [(n, site, conds, leaf) for n in lst_nodes
+                   for (site, conds, leaf) in _leaves(ln, n, assign_value(n, "self.last_complete_prefix_index"))]
+        if len(lleaves) < 2:
             raise AnchorVanished("load_state no longer sets last_complete_prefix_index on both branches")
         r.site(ls, lst_nodes[0].ast, "load: prefix name -> index")
 
         def lcp_none(pol):
-            def g(n, lab):
-                ft = ln.edge_fact(n, lab)
-                if not ft or "None" not in ft[1:]:
+            def g(ft):
+                if "None" not in ft[1:]:
                     return False
                 other = [x for x in ft[1:] if x != "None"]
                 return ft[0] in (("is", "==") if pol else ("is not", "!=")) and len(other) == 1 \
                     and other[0].endswith("['last-complete-prefix']")
             return g
-        for n in lst_nodes:
-            v = ln.norm(n, assign_value(n, "self.last_complete_prefix_index"))
+        for (n, site, conds, leaf) in lleaves:
+            v = ln.at(site).norm(leaf)
             if v == MINUS1:
-                bad = find_path_avoiding(lcfg, lambda x, _n=n: x is _n, gate_edge=lcp_none(True))
+                bad = _not_established(ln, lcfg, site, conds, lcp_none(True))
                 msg = "last_complete_prefix_index = -1 although a last-complete-prefix was saved"
             elif re.match(r"^self\.prefixes\.index\(.*\['last-complete-prefix'\]\)$", v):
-                bad = find_path_avoiding(lcfg, lambda x, _n=n: x is _n, gate_edge=lcp_none(False))
+                bad = _not_established(ln, lcfg, site, conds, lcp_none(False))
                 msg = "prefix index looked up although last-complete-prefix is None"
             else:
-                r.violation(ls, ls.loc(n.ast), "on load last_complete_prefix_index is set to %s (expected -1 or "
+                r.violation(ls, ls.loc(site.ast), "on load last_complete_prefix_index is set to %s (expected -1 or "
                             "self.prefixes.index(<saved last-complete-prefix>))" % v)
                 continue
             for (t, w) in bad:
-                r.violation(ls, ls.loc(n.ast), msg, w)
+                r.violation(ls, ls.loc(site.ast), msg, w)
         sv = idx.func(SC + ".save_state")
         scfg = sv.cfg()
         sn = FlowNorm(sv)
@@ -466,30 +467,22 @@ def run(ctx: Context):
         IDX = "self.last_complete_prefix_index"
 
         def idx_is_m1(pol):
-            def g(n, lab):
-                ft = sn.edge_fact(n, lab)
-                return bool(ft) and ft[0] == ("==" if pol else "!=") and set(ft[1:]) == {MINUS1, IDX}
+            def g(ft):
+                return ft[0] == ("==" if pol else "!=") and set(ft[1:]) == {MINUS1, IDX}
             return g
-        if isinstance(val, ast.Name):
-            defs = [n for n in scfg.nodes if n.kind == "stmt" and assign_value(n, val.id) is not None]
-            if not defs:
-                raise AnchorVanished("save_state: definition of %s" % val.id)
-            for n in defs:
-                dv = assign_value(n, val.id)
-                if _is_none(dv):
-                    for (t, w) in find_path_avoiding(scfg, lambda x, _n=n: x is _n, gate_edge=idx_is_m1(True)):
-                        r.violation(sv, sv.loc(n.ast), "last-complete-prefix is saved as None although a prefix was completed", w)
-                elif sn.norm(n, dv) == "self.prefixes[%s]" % IDX:
-                    for (t, w) in find_path_avoiding(scfg, lambda x, _n=n: x is _n, gate_edge=idx_is_m1(False)):
-                        r.violation(sv, sv.loc(n.ast), "prefix name looked up for index -1", w)
-                else:
-                    r.violation(sv, sv.loc(n.ast), "last-complete-prefix is saved as %s (expected self.prefixes[%s] or "
-                                "None)" % (sn.norm(n, dv), IDX))
-        else:
-            v = sn.norm(smark, val)
-            r.require(v == norm_src("(None if %s == -1 else self.prefixes[%s])" % (IDX, IDX)) or
-                      v == norm_src("(self.prefixes[%s] if %s != -1 else None)" % (IDX, IDX)), sv, sv.loc(smark.ast),
-                      "last-complete-prefix is saved as %s" % v)
+        sleaves = _leaves(sn, smark, val)
+        if len(sleaves) < 2:
+            raise AnchorVanished("save_state no longer chooses between None and the prefix name for last-complete-prefix")
+        for (site, conds, leaf) in sleaves:
+            if _is_none(leaf):
+                for (t, w) in _not_established(sn, scfg, site, conds, idx_is_m1(True)):
+                    r.violation(sv, sv.loc(site.ast), "last-complete-prefix is saved as None although a prefix was completed", w)
+            elif sn.at(site).norm(leaf) == "self.prefixes[%s]" % IDX:
+                for (t, w) in _not_established(sn, scfg, site, conds, idx_is_m1(False)):
+                    r.violation(sv, sv.loc(site.ast), "prefix name looked up for index -1", w)
+            else:
+                r.violation(sv, sv.loc(site.ast), "last-complete-prefix is saved as %s (expected self.prefixes[%s] or "
+                            "None)" % (sn.at(site).norm(leaf), IDX))
 
     # -- 3. state is saved; the crawler keeps going ----------------------------------
     with ctx.rule("C27.3", "R2", "start_slice saves the state on the normal and on the TimeSliceExceeded exit and "
